@@ -155,7 +155,8 @@ PROPS = {
                       "is evaluated numerically and reported in the evidence.",
     },
     "C05": {
-        "targets": ["spowtd.fit_offsets:split_mapping_by_keys", "spowtd.fit_offsets:find_offsets"],
+        "targets": ["spowtd.fit_offsets:split_mapping_by_keys", "spowtd.fit_offsets:find_offsets",
+                    "spowtd.fit_offsets:build_head_mapping", "spowtd.fit_offsets:get_series_time_offsets"],
         "lean": ["LeastSquares.lean"],
         "bounded": [{"run": "bounded.fit_checks:run_C05",
                      "what": "validation of the numpy assumptions (dot, solve) and of the bridge: on every small connected "
@@ -178,7 +179,8 @@ PROPS = {
                       "the connected group) around find_offsets is covered by the stand-ins of C08.",
     },
     "C08": {
-        "targets": ["spowtd.fit_offsets:split_mapping_by_keys"],
+        "targets": ["spowtd.fit_offsets:split_mapping_by_keys", "spowtd.fit_offsets:build_head_mapping",
+                    "spowtd.fit_offsets:get_series_time_offsets", "spowtd.fit_offsets:find_offsets"],
         "lean_thorough": ["LeastSquares.lean"],
         "bounded": [{"run": "bounded.fit_checks:run_C08",
                      "what": "bounded stand-in for get_connected_components / get_series_time_offsets: all small overlap structures "
